@@ -551,19 +551,22 @@ func checkFull(cell refterm.Cell, src image.Image, ix, iy, dw, ph int, scaled bo
 	var wants []string
 	for _, tp := range tops {
 		tr, tg, tb, ta, _ := straight(src, tp.X, tp.Y)
-		pairs := [][4]int{}
+		// r, g, b, a of the average and the smaller of the two alphas
+		pairs := [][5]int{}
 		if len(bots) == 0 {
 			// the cell covers one pixel only
-			pairs = append(pairs, [4]int{tr, tg, tb, ta})
+			pairs = append(pairs, [5]int{tr, tg, tb, ta, ta})
 		}
 		for _, bp := range bots {
 			br, bgc, bb, ba, _ := straight(src, bp.X, bp.Y)
-			pairs = append(pairs, [4]int{(tr + br) / 2, (tg + bgc) / 2, (tb + bb) / 2, (ta + ba) / 2})
+			pairs = append(pairs, [5]int{(tr + br) / 2, (tg + bgc) / 2, (tb + bb) / 2, (ta + ba) / 2, min(ta, ba)})
 		}
 		for _, p := range pairs {
 			tol := 2
-			if scaled && (ta < 255 || p[3] < 255) {
-				tol = 255/max(min(ta, p[3]), 1) + 3
+			if scaled && p[4] < 255 {
+				// the scaler's 8-bit premultiplied colours lose up to
+				// 255/alpha per channel of the more transparent pixel
+				tol = 255/max(p[4], 1) + 3
 			}
 			transparent := p[3] < transparentEnough
 			edge := p[3] >= transparentEnough-2 && p[3] <= transparentEnough+2
